@@ -13,7 +13,7 @@ import decimal
 import uuid
 
 from spyne.model.binary import ByteArray
-from spyne.model.complex import ComplexModelBase, Array, XmlAttribute
+from spyne.model.complex import ComplexModelBase, Array, XmlAttribute, XmlData
 from spyne.model.primitive import (Integer, Unicode, Decimal, Double, Boolean, DateTime, Date, Time, Duration, Uuid)
 
 from . import xmlref
@@ -26,7 +26,7 @@ def _members(t):
 
 def enc(t, v, cfg):
     """cfg: dict(wrappers=bool, as_list=bool, family='json'|'yaml'|'msgpack')."""
-    if issubclass(t, XmlAttribute):
+    if issubclass(t, (XmlAttribute, XmlData)):
         t = t.type
     if v is None:
         return None
@@ -72,7 +72,7 @@ def _enc_one(t, v, cfg):
 
 
 def dec(t, d, cfg):
-    if issubclass(t, XmlAttribute):
+    if issubclass(t, (XmlAttribute, XmlData)):
         t = t.type
     if d is None:
         return None
